@@ -12,6 +12,8 @@ package actor
 //                             ClaimScheduleFire is a put-if-absent-with-TTL map on a virtual store
 //                             clock; att: a <tick> <lagSec> <storeSec> | nometa | nocluster <lag> |
 //                             storeerr <tick> <lagSec>
+//   claimz <ttl> | z <tick> <utcOffsetHours> <storeSec> ; …   the same job function, the fake store keyed on
+//                             the RAW key string, each attempt under its own process-local time zone
 //   ttl <periodNs|err1|err2>  the REAL cronClaimTTL on a fake trigger with that period
 //   t-once <ms> / t-every <ms> <k> / t-pause <ms> <k>   real quartz, short delays, one-sided checks
 //   const                     the compiled claim-TTL bounds
@@ -350,6 +352,105 @@ func verifC19Claim(ttlS string, atts []string) string {
 	return strings.Join(out, " ")
 }
 
+// ---- cluster claim across time zones: the store keys on the RAW key string the code builds -----
+
+// verifC19RawCluster is a put-if-absent-with-TTL map keyed by exactly the string handed to
+// ClaimScheduleFire (no interpretation): two nodes arbitrate the same tick only if they build the
+// same key for it.
+type verifC19RawCluster struct {
+	cluster.Cluster
+	now     int64
+	entries map[string]int64
+	keys    map[string]bool
+	granted bool
+	ttl     string
+}
+
+func (c *verifC19RawCluster) ClaimScheduleFire(_ context.Context, key string, ttl time.Duration) error {
+	c.keys[key] = true
+	c.ttl = fmt.Sprintf("t%d", int64(ttl/time.Second))
+	if exp, found := c.entries[key]; found && c.now < exp {
+		return cluster.ErrScheduleFireClaimed
+	}
+	c.entries[key] = c.now + int64(ttl/time.Second)
+	c.granted = true
+	return nil
+}
+
+// verifC19ClaimZones: `claimz <ttl> | z <tick> <utcOffsetHours> <storeSec> ; …` — every attempt is one
+// node handling tick <tick> (same scheduled instant for the same tick id, a whole second, a few
+// seconds old) with its process-local time zone set to the given UTC offset.
+func verifC19ClaimZones(ttlS string, atts []string) string {
+	if err := verifC19System(); err != nil {
+		return "CRASH system: " + err.Error()
+	}
+	ttl, err := strconv.ParseInt(ttlS, 10, 64)
+	if err != nil {
+		return "bad-case"
+	}
+	fake := &verifC19RawCluster{entries: map[string]int64{}, keys: map[string]bool{}}
+	wrap := &verifC19SysWrap{actorSystem: verifC19Sys, cl: fake}
+	sch := newScheduler(log.DiscardLogger, time.Second, wrap)
+	claim := &scheduleFireClaim{reference: "ref", ttl: time.Duration(ttl) * time.Second}
+	verifC19Seq++
+	mref := fmt.Sprintf("claimz%d", verifC19Seq)
+	jobFn := sch.makeJobFn(verifC19Pid, &verifC19Msg{ref: mref}, newScheduleConfig(WithReference("ref")), claim)
+	saved := time.Local
+	defer func() { time.Local = saved }()
+	base := time.Now().Truncate(time.Second)
+	ticks := map[string]bool{}
+	expected := 0
+	var out []string
+	for _, a := range atts {
+		f := strings.Fields(a)
+		if len(f) != 4 || f[0] != "z" {
+			return "bad-case"
+		}
+		tick, e1 := strconv.ParseInt(f[1], 10, 64)
+		off, e2 := strconv.ParseInt(f[2], 10, 64)
+		st, e3 := strconv.ParseInt(f[3], 10, 64)
+		if e1 != nil || e2 != nil || e3 != nil || tick < 0 || tick > 5 {
+			return "bad-case"
+		}
+		ticks[f[1]] = true
+		rt := base.Add(-time.Duration(tick) * time.Second).UnixNano()
+		ctx := context.WithValue(context.Background(), quartz.JobMetadataContextKey, quartz.JobMetadata{RunTime: rt})
+		fake.now, fake.granted, fake.ttl = st, false, ""
+		time.Local = time.FixedZone(fmt.Sprintf("Z%d", off), int(off)*3600)
+		done, err := jobFn(ctx)
+		time.Local = saved
+		r := ""
+		switch {
+		case err != nil:
+			r = "err:" + verifC19ErrName(err)
+		case !done:
+			r = "notdone"
+		case fake.granted:
+			r = "win"
+			expected++
+		case fake.ttl == "":
+			r = "skip"
+		default:
+			r = "lose"
+		}
+		if fake.ttl != "" {
+			r += "," + fake.ttl
+		}
+		out = append(out, r)
+	}
+	// equal instants must give equal keys: one distinct key per tick
+	out = append(out, fmt.Sprintf("keys=%d/%d", len(fake.keys), len(ticks)))
+	if !verifC19Act.waitCount(mref, expected, 5*time.Second) {
+		out = append(out, "?")
+	} else {
+		time.Sleep(20 * time.Millisecond)
+		if n := verifC19Act.count(mref); n > expected {
+			out = append(out, fmt.Sprintf("extra-delivery=%d", n-expected))
+		}
+	}
+	return strings.Join(out, " ")
+}
+
 // ---- cronClaimTTL ----------------------------------------------------------------------------
 
 type verifC19Trigger struct {
@@ -502,6 +603,12 @@ func VerifC19Run(line string) string {
 			return "bad-case"
 		}
 		return verifC19Claim(f[1], split(p[1]))
+	case "claimz":
+		p := strings.SplitN(line, "|", 2)
+		if len(p) != 2 || len(f) < 2 {
+			return "bad-case"
+		}
+		return verifC19ClaimZones(f[1], split(p[1]))
 	case "ttl":
 		if len(f) != 2 {
 			return "bad-case"
